@@ -163,7 +163,7 @@ fn specs() -> Vec<CheckSpec> {
     CheckSpec {
         id: "C10",
         profile: Profile::Core,
-        more_profiles: &[Profile::TwoHop, Profile::Adaptive],
+        more_profiles: &[Profile::TwoHop, Profile::Adaptive, Profile::Rewards],
         mk: mk_c10,
         level: "exploration",
         rule: "HIST for every landed swap (v1, v2, two-hop legs) the ticks the trace reports as crossed must be exactly the initialized ticks (bounds of positions with liquidity) between the current tick before and after, in price order, each once, with the liquidity after each crossing implied by the positions; half of the single swaps are replayed on forks under packaging faults: tick arrays permuted, duplicated/omitted (same result or failure), passed as v2 supplemental arrays with irrelevant arrays in the main slots, merely-named arrays created empty (fixed or dynamic), an array of another pool substituted (must fail); a case is one (instruction, direction, #crossed, shifted start, edge slot crossed, spacing, zero liquidity) tuple",
